@@ -16,7 +16,7 @@ theorem ctxKids_split (h p : Nat) (k2 : List HTree) (r : HTree) (hr : r.handle =
     rw [if_pos hr]
   | k :: k1, left, hn => by
     simp only [handlesList, List.mem_append, not_or] at hn
-    have hk : k.handle ≠ h := fun e => hn.1 (e ▸ handle_mem_handles k)
+    have hk : k.handle ≠ h := fun e => hn.1 (e ▸ handle_mem_handles_ff k)
     simp only [List.cons_append]
     unfold ctxKids
     rw [if_neg hk, ctxBelow_none_of_not_mem' h k hn.1]
@@ -60,7 +60,7 @@ theorem ctx?_kid (h : RootAt f X tc Y) {A B k1 k2 : List HTree} {p : Nat} {v : V
     rw [List.findSome?_eq_none_iff]
     intro t ht
     apply ctxBelow_none_of_not_mem'
-    intro hm; exact hA (mem_handlesList.2 ⟨t, ht, hm⟩)
+    intro hm; exact hA (mem_handlesList_ff.2 ⟨t, ht, hm⟩)
   rw [hAn, List.findSome?_cons]
   simp only [Option.none_or]
   unfold ctxBelow
@@ -115,14 +115,14 @@ theorem insertBefore_kid (h : RootAt f X tc Y) {A B k1 k2 : List HTree} {p : Nat
     | none => simp
     | some k =>
       have : k.handle ≠ tc.handle :=
-        h.ne_of_rest (handles_subset_of_mem_subtreesList (hkmem k hk) _ (handle_mem_handles k))
+        h.ne_of_rest (handles_subset_of_mem_subtreesList (hkmem k hk) _ (handle_mem_handles_ff k))
       simp only [Option.bind_some]
       split <;> simp [this]
   have hcp : f.prevSibling tc.handle = none := by unfold Forest.prevSibling; rw [h.ctx?_self]
   have hcn' : f.nextSibling tc.handle = none := by unfold Forest.nextSibling; rw [h.ctx?_self]
   have hadd : f.addConsolidate tc.handle (f.prevSibling r.handle) (some r.handle) = (f, false) := by
     cases hc : f.consolidation with
-    | false => exact Forest.addConsolidate_off _ _ _ _ hc
+    | false => exact Forest.addConsolidate_off_ff _ _ _ _ hc
     | true =>
       cases ht : tc.value.isText with
       | false =>
